@@ -1,6 +1,6 @@
 (* Comparison helpers for the generated correspondence cases of C03 / C16 (no proofs). *)
 From Coq Require Import String Ascii List Bool Arith.
-From LV Require Import Base.Prelude Forest.Sppf Forest.Prio Shape.Chain Shape.Spec Shape.Transform Shape.Ebnf Shape.EarleyLeg.
+From LV Require Import Base.Prelude Forest.Sppf Forest.Prio Shape.Chain Shape.Spec Shape.Transform Shape.Ebnf Shape.EarleyLeg Shape.Cnf.
 Import ListNotations.
 
 Fixpoint stree_eqb (a b : stree) : bool :=
@@ -126,11 +126,54 @@ Definition earley_check (c : earley_case) : bool :=
      | _ => false
      end.
 
+(* CYK leg.  The CNF grammar cyk.to_cnf built (as a set) against the model *)
+Definition cset_incl (a b : list crule) : bool := forallb (fun x => existsb (crule_eqb x) b) a.
+Definition cnfg_case := (list rrec * list crule)%type.
+Definition cnfg_check (c : cnfg_case) : bool :=
+  match to_cnf 400 (fst c) with
+  | Ok g => cset_incl g (snd c) && cset_incl (snd c) g
+  | _ => false
+  end.
+
+Fixpoint ctree_eqb (a b : ctree) : bool :=
+  match a, b with
+  | CLeaf t1 v1, CLeaf t2 v2 => String.eqb t1 t2 && String.eqb v1 v2
+  | CNode r1 c1, CNode r2 c2 =>
+      crule_eqb r1 r2 &&
+      (fix go (x y : list ctree) : bool :=
+         match x, y with [], [] => true | a' :: x', b' :: y' => ctree_eqb a' b' && go x' y' | _, _ => false end) c1 c2
+  | _, _ => false
+  end.
+
+Fixpoint otree_eqb (a b : otree) : bool :=
+  match a, b with
+  | OLeaf t1 v1, OLeaf t2 v2 => String.eqb t1 t2 && String.eqb v1 v2
+  | ONode r1 c1, ONode r2 c2 =>
+      Nat.eqb r1 r2 &&
+      (fix go (x y : list otree) : bool :=
+         match x, y with [], [] => true | a' :: x', b' :: y' => otree_eqb a' b' && go x' y' | _, _ => false end) c1 c2
+  | _, _ => false
+  end.
+
+(* one CYK parse: rule table, maybe_placeholders, the CNF parse tree handed to revert_cnf, the tree
+   revert_cnf returned (rule indices through the aliases), the tree Lark.parse returned *)
+Definition cyk_case := (list rrec * bool * ctree * otree * stree)%type.
+
+(* 0 = all observations reproduced *)
+Definition cyk_diag (c : cyk_case) : nat :=
+  let '(rules, mp, cn, o, t) := c in
+  if negb (wf_otree rules o) then 1
+  else if negb (match to_otree (revert cn) with Some o' => otree_eqb o o' | None => false end) then 2
+  else if negb (ctree_eqb (cnf_of rules o) cn) then 3
+  else if negb (match shape mp (o_dtree rules o) with Some t' => stree_eqb t t' | None => false end) then 4
+  else 0.
+Definition cyk_check (c : cyk_case) : bool := Nat.eqb (cyk_diag c) 0.
+
 Inductive c03_case := CaseCB (c : cb_case) | CaseE2E (c : e2e_case) | CaseFRS (c : frs_case)
-                    | CaseEARLEY (c : earley_case).
+                    | CaseEARLEY (c : earley_case) | CaseCNFG (c : cnfg_case) | CaseCYK (c : cyk_case).
 Definition c03_check (c : c03_case) : bool :=
   match c with CaseCB x => cb_check x | CaseE2E x => e2e_check x | CaseFRS x => frs_check x
-             | CaseEARLEY x => earley_check x end.
+             | CaseEARLEY x => earley_check x | CaseCNFG x => cnfg_check x | CaseCYK x => cyk_check x end.
 
 (* C16 ------------------------------------------------------------------------------------ *)
 (* the symbolic transformer: callbacks on the listed rule names / terminal types build tagged nodes *)
